@@ -367,3 +367,36 @@ V("C12", "build-slices-order", "fire", "C12.R5", "build cuts the data with a run
   (WSF, "            {'name': k, 'data': list(data[model.config.channel_slices[k]])}\n            for k in model.config.channels", "            {'name': k, 'data': list(data[model.config.channel_slices[k]])}\n            for k in [c['name'] for c in model.spec['channels']]"))
 V("C12", "init-loop-plus-equals", "silent", "", "suggested_init accumulates with +=",
   (PDFF, "            init = init + self.par_map[name]['paramset'].suggested_init", "            init += self.par_map[name]['paramset'].suggested_init"))
+
+# ------------------------------------------------------------------ C01
+MD = "src/pyhf/modifiers/"
+V("C01", "normfactor-default-zeros", "fire", "C01.R1", "normfactor default tensor is zeros",
+  (MD + "normfactor.py", "self.normfactor_default = tensorlib.ones(self.normfactor_mask.shape)", "self.normfactor_default = tensorlib.zeros(self.normfactor_mask.shape)"))
+V("C01", "histosys-default-ones", "fire", "C01.R1", "histosys default tensor is ones",
+  (MD + "histosys.py", "self.histosys_default = tensorlib.zeros(self.histosys_mask.shape)", "self.histosys_default = tensorlib.ones(self.histosys_mask.shape)"))
+V("C01", "staterror-where-swapped", "fire", "C01.R1", "staterror where() arms swapped",
+  (MD + "staterror.py", "self.staterror_mask, results_staterr, self.staterror_default", "self.staterror_mask, self.staterror_default, results_staterr"))
+V("C01", "lumi-opcode", "fire", "C01.R1", "lumi declared additive",
+  (MD + "lumi.py", "    name = 'lumi'\n    op_code = 'multiplication'", "    name = 'lumi'\n    op_code = 'addition'"))
+V("C01", "routing-swapped", "fire", "C01.R2", "op_code routing swapped in _MainModel",
+  (PDFF, "            if modifier_applier.op_code == \"addition\":\n                self._delta_mods.append(modifier_applier.name)\n            elif modifier_applier.op_code == \"multiplication\":\n                self._factor_mods.append(modifier_applier.name)", "            if modifier_applier.op_code == \"addition\":\n                self._factor_mods.append(modifier_applier.name)\n            elif modifier_applier.op_code == \"multiplication\":\n                self._delta_mods.append(modifier_applier.name)"))
+V("C01", "product-to-sum", "fire", "C01.R2", "factors summed instead of multiplied",
+  (PDFF, "newbysample = tensorlib.product(allfac, axis=0)", "newbysample = tensorlib.sum(allfac, axis=0)"))
+V("C01", "clip-order", "fire", "C01.R2", "bin clip applied before the sample sum",
+  (PDFF, "        if self.clip_sample_data is not None:\n            newbysample = tensorlib.clip(\n                newbysample, self.clip_sample_data, max_value=None\n            )\n", "        if self.clip_sample_data is not None:\n            newbysample = tensorlib.clip(\n                newbysample, self.clip_sample_data, max_value=None\n            )\n        if self.clip_bin_data is not None:\n            newbysample = tensorlib.clip(newbysample, self.clip_bin_data, max_value=None)\n"))
+V("C01", "mask-always-true", "fire", "C01.R3", "shapefactor presence mask constant true",
+  (MD + "shapefactor.py", "        maskval = True if thismod else False\n", "        maskval = True\n"))
+V("C01", "normsys-absent-lo", "fire", "C01.R3", "normsys stand-in variation not neutral",
+  (MD + "normsys.py", "lo_factor = thismod['data']['lo'] if thismod else 1.0", "lo_factor = thismod['data']['lo'] if thismod else 0.0"))
+V("C01", "absent-nominal-ones", "fire", "C01.R4", "absent sample gets a nominal of ones",
+  (PDFF, "            else [0.0] * self.config.channel_nbins[channel]\n        )\n        if not len(nom) == self.config.channel_nbins[channel]:", "            else [1.0] * self.config.channel_nbins[channel]\n        )\n        if not len(nom) == self.config.channel_nbins[channel]:"))
+V("C01", "mask-sample-order", "fire", "C01.R5", "lumi mask sample axis in reversed order",
+  (MD + "lumi.py", "[[builder_data[m][s]['data']['mask']] for s in pdfconfig.samples]", "[[builder_data[m][s]['data']['mask']] for s in reversed(pdfconfig.samples)]"))
+V("C01", "keys-sorted-separately", "fire", "C01.R5", "normsys keys sorted independently of the parameter names",
+  (MD + "normsys.py", "        keys = [f'{mtype}/{m}' for m, mtype in modifiers]\n        normsys_mods = [m for m, _ in modifiers]", "        keys = sorted(f'{mtype}/{m}' for m, mtype in modifiers)\n        normsys_mods = [m for m, _ in modifiers]"))
+V("C01", "required-by-key", "fire", "C01.R7", "histosys requirement registered under type/name key",
+  (MD + "histosys.py", "            self.required_parsets.setdefault(\n                thismod['name'],", "            self.required_parsets.setdefault(\n                key,"))
+V("C01", "rename-locals", "silent", "", "rename locals in expected_data",
+  (PDFF, "        allsum = tensorlib.concatenate(deltas + [self.nominal_rates])\n\n        nom_plus_delta = tensorlib.sum(allsum, axis=0)", "        stacked = tensorlib.concatenate(deltas + [self.nominal_rates])\n\n        nom_plus_delta = tensorlib.sum(stacked, axis=0)"))
+V("C01", "maskval-bool", "silent", "", "presence mask via bool()",
+  (MD + "lumi.py", "        maskval = True if thismod else False\n", "        maskval = bool(thismod)\n"))
